@@ -53,6 +53,7 @@ type c20client struct {
 	act     func(c interface{})
 	create  func(c interface{}, table string) error
 	put     func(c interface{}, table string) error
+	drop    func(c interface{}, table string) error
 	request func(c interface{}, r c20reg) (outcome string, err error) // outcome: "matched" / "not-matched" / "updated" / ...
 	marker  func(c interface{}, table string) string                  // value of attribute "marker" of the item
 }
@@ -78,6 +79,10 @@ func c20V2() c20client {
 		act:  func(c interface{}) { c.(*v2c.Client).ActivateNativeInterpreter() },
 		create: func(c interface{}, table string) error {
 			return v2c.AddTable(ctx, c.(*v2c.Client), table, "h", "")
+		},
+		drop: func(c interface{}, table string) error {
+			_, err := c.(*v2c.Client).DeleteTable(ctx, &ddb2.DeleteTableInput{TableName: aws2.String(table)})
+			return err
 		},
 		put: func(c interface{}, table string) error {
 			_, err := c.(*v2c.Client).PutItem(ctx, &ddb2.PutItemInput{TableName: aws2.String(table), Item: map[string]types2.AttributeValue{"h": S("k"), "a": N("1"), "b": N("1")}})
@@ -163,6 +168,10 @@ func c20V1() c20client {
 		setI:   func(c interface{}, n *interpreter.Native) { c.(*v1c.Client).SetInterpreter(n) },
 		act:    func(c interface{}) { c.(*v1c.Client).ActivateNativeInterpreter() },
 		create: func(c interface{}, table string) error { return v1c.AddTable(c.(*v1c.Client), table, "h", "") },
+		drop: func(c interface{}, table string) error {
+			_, err := c.(*v1c.Client).DeleteTable(&ddb1.DeleteTableInput{TableName: aws1.String(table)})
+			return err
+		},
 		put: func(c interface{}, table string) error {
 			_, err := c.(*v1c.Client).PutItem(&ddb1.PutItemInput{TableName: aws1.String(table), Item: map[string]*ddb1.AttributeValue{"h": S("k"), "a": N("1"), "b": N("1")}})
 			return err
@@ -257,7 +266,7 @@ func c20BuiltinUpdate(text string) (markerAfter string, ok bool) {
 // C20: native-interpreter overrides are dispatched exactly and fall back safely.
 func C20(run *ev.Run, tier string) map[string]interface{} {
 	thorough := tier == "thorough"
-	tables := []string{"tb1", "tb2"}
+	tables := []string{"tb1", "tb12"} // (one name is a prefix of the other)
 	var regs []c20reg
 	for _, t := range tables {
 		for _, k := range c20Kinds {
@@ -403,7 +412,20 @@ func C20(run *ev.Run, tier string) map[string]interface{} {
 						register()
 					}
 					cfgName := j.cfg
-					if j.pre != nil {
+					if j.pre != nil && j.pre.via == "recreate-the-other-table" {
+						// the OTHER table is deleted and created again: registrations of this one stay
+						other := tables[0]
+						if other == req.table {
+							other = tables[1]
+						}
+						if err := j.cl.drop(c, other); err != nil {
+							run.Report("C20|setup-drop-failed@"+j.cl.name, err.Error(), nil)
+						}
+						j.cl.create(c, other)
+						j.cl.put(c, other)
+						cfgName = j.cfg + "+after-the-other-table-was-deleted-and-created-again"
+						atomic.AddInt64(&seqEvals, 1)
+					} else if j.pre != nil {
 						j.cl.request(c, *j.pre)
 						// the earlier request may have changed or deleted the item: write it again
 						for _, t := range tables {
@@ -537,6 +559,7 @@ func C20(run *ev.Run, tier string) map[string]interface{} {
 			for pi := range requests {
 				ch <- job{cl, s, "set+activate-after-create", &requests[pi]}
 			}
+			ch <- job{cl, s, "set+activate-after-create", &c20reg{via: "recreate-the-other-table", kind: "table-management"}}
 		}
 	}
 	close(ch)
